@@ -192,6 +192,8 @@ def feas(name, nr, flags, **kw):
 JOBS['C08'] = {'quick': [feas('feasible-n2-overlap', 2, ['OVERLAP']), feas('feasible-n2-overlap-sep', 2, ['OVERLAP', 'SEP']), feas('feasible-n3-exempt', 3, ['OVERLAP', 'EXEMPT'], time_limit=400), feas('feasible-n2-pinned', 2, ['OVERLAP', 'SEP', 'SEPEQ', 'SEPY'], max_steps=2000000),
                          feas('feasible-n3-cluster-outsider', 3, ['OVERLAP', 'CLUSTER', 'SYMONLY=2'])],
                'thorough': [feas('feasible-n3-overlap', 3, ['OVERLAP']), feas('feasible-n3-pinned', 3, ['OVERLAP', 'SEP', 'SEPEQ', 'SEPY', 'PB=1'], time_limit=1500)]}
+# the pinned-pair makeFeasible job asserts C07's relations too (it is the one that catches the seeded change C07-m1)
+JOBS['C07']['thorough'] = JOBS['C07']['thorough'] + [j for j in JOBS['C08']['thorough'] if j.name == 'feasible-n3-pinned'] + [j for j in JOBS['C08']['quick'] if j.name == 'feasible-n2-overlap-sep']
 ASSUMPTIONS['C08'] = ['claim covers makeFeasible() (the feasibility phase); the subsequent run() descent uses sqrt of symbolic distances and is outside the executor arithmetic; run() re-projects onto the same constraints after every step (composition stated, not proved)']
 
 # ----------------------------------------------------------------------------------------------- C20
